@@ -315,6 +315,27 @@ ROUND2 = {
 for _k, _v in ROUND2.items():
     CLAIMED[_k]["text"] += _v
 
+# ---- round 3 addenda ----
+ROUND3 = {
+    "C01": " Round 3: the lattice crosses the path selectors with switch settings that must not change the meaning (debug off, memory_efficient, trace_mode, ...: SwitchIrrelevant); part history models what survives a prediction (the kernel's active_dims field, lazily evaluated tensors and their call-time keywords, the cached train-train block) over prediction / train-eval / set_train_data steps with invariant OnePrior, replayed on kernels with active_dims and keyword-consuming kernels; every cell makes two predictions.",
+    "C02": " Round 3: the batch shape of the target against the batch shape of the distribution is a dimension (equal, extra leading dims, suffixes, unit dims; batched or shared inputs) with DivisorOK (the divisor is n x tasks for every pair of shapes), for the MLL and the LOO objective.",
+    "C03": " Round 3: skip_posterior_variances is used for all predictions of a fifth of the histories (its code path keeps its own state).",
+    "C04": " Round 3: input-dependent prior means, KISS-GP fantasies of fantasies, and a family-tree machine (GetFantasy(of) / Predict(k) in any interleaving, DataFixed) whose maximal histories are replayed: every model of the tree, whenever evaluated, equals a fresh model on its data.",
+    "C05": " Round 3: part dims - every argument that names a dimension (dim of sum_interaction_terms, last_dim_is_batch, the structure kernels) at every valid position with pairwise distinct axis sizes (DimsOK), against the explicit sum over index subsets.",
+    "C08": " Round 3: every objective class of gpytorch.mlls that accepts batched models is in the replica lattice with batch ranks 1 and 2, element b compared in value with the non-batched replica.",
+    "C09": " Round 3: part access (every structured kernel under every access form - dense, diag=True, lazy diagonal, variance - x train/eval x the settings that change its meaning: AccessOK) and part gridpred (one prediction of a data-driven-grid KISS-GP as strategy creation, test/test block, test/train block, reference, with the test extent in every position relative to the training extent: GpOK).",
+    "C11": " Round 3: the index alphabet contains every pairing of index kinds for the two event dimensions (int incl. negative x tensor, ...: ASSUME PairingsCovered) behind every batch item, and batch index tensors.",
+    "C13": " Round 3: part params - every learnable parameter of the one-dimensional likelihoods over its whole valid range in decades (1e-6..1e2), scalar / broadcast / mixed-magnitude batches, set through setter or initialize; the conditional's parameters are read back from the returned distribution (ParamsNoFloorOK).",
+    "C14": " Round 3: part paths (settings that select another branch of a strategy's forward: skip_posterior_variances, fast_pred_var, CG, trace_mode, fast_computations off, eager kernels) and part ehist (an evaluation-mode protocol machine: predict under the path, parameter change by optimiser step or load, predict again; EObservesCurrent, five broken variants rejected).",
+    "C15": " Round 3: part tree - added loss terms and priors registered over a module tree (equal and different local names in different sub-modules, one object in several slots, None terms, modules reachable along two paths) crossed with every objective class (TreeOK, SharingNeutral), plus real latent-variable components.",
+    "C16": " Round 3: two batch dimensions (the mask is the union over all batch dimensions).",
+    "C18": " Round 3: carrier kind closure (function objects that deepcopy / pickle do not copy must read the module they are called with), a constructor-prior family, a divergence step after every round trip (the restored model is independent of and equivalent to the original) and a closure sweep over every class with *_prior arguments.",
+    "C19": " Round 3: requires_grad of every input of every hand-written Function is a dimension (every non-empty subset; exactly one of two different kernel inputs): each input that requires grad is delivered the full derivative or the Function refuses loudly (BWNeedsOK, KCWants).",
+    "C20": " Round 3: a block may ask for the value that is also the documented default (argument alphabet contains d0).",
+}
+for _k, _v in ROUND3.items():
+    CLAIMED[_k]["text"] += _v
+
 PENDING = "check not built yet (build in progress; see DESIGN.md section 11)"
 NOT_APPLICABLE = {}
 
